@@ -1,5 +1,7 @@
 """C11 — shortest-path solvers return true shortest distances and real paths."""
 
+from vf.common import fresh as _fresh
+
 ID = "C11"
 RULE = ("composite cases: one seeded digraph (1-9 nodes, 10-16 in the 'bigger' stratum; strata aim at ties and "
         "zero-weight cycles, duplicate arcs with different weights, self loops, detours that beat a direct arc, "
@@ -546,6 +548,7 @@ def _run_graph(case, obs):
     B = 100_000  # observed maximum on the unchanged tree: < 5 000 steps
     n = case["n"]
     labels = case["labels"]
+    qlabels = [_fresh(x) for x in labels]  # equal but distinct objects for start/goal arguments
     arcs = [tuple(e) for e in case["edges"]]
     s = case["s"]
     goals = list(case["goals"])
@@ -587,15 +590,15 @@ def _run_graph(case, obs):
     heur = [("h0", lambda x: 0), ("hexact", h_exact), ("hhalf", h_half)]
 
     # --- dijkstra / astar, goal as predicate (possibly several goal nodes) and as value
-    goal_forms = [("pred", pred, goals, d_goal, key_multi), ("value", labels[t], [t], d_t, key_t)]
+    goal_forms = [("pred", pred, goals, d_goal, key_multi), ("value", qlabels[t], [t], d_t, key_t)]
     for gname, gobj, gs, dist, key in goal_forms:
-        res = call(obs, dj, labels[s], gobj, nb, what=f"dijkstra[{gname}]", budget=B)
+        res = call(obs, dj, qlabels[s], gobj, nb, what=f"dijkstra[{gname}]", budget=B)
         if not is_crash(res):
             J.target_query(f"dijkstra[{gname}]", res, s, gs, dist, key, labelled=True)
         for hname, h in heur:
             if gname == "value" and len(goals) > 1 and hname != "h0":
                 continue  # the heuristics are built for the whole goal set
-            res = call(obs, astar, labels[s], gobj, nb, h, what=f"astar[{gname},{hname}]", budget=B)
+            res = call(obs, astar, qlabels[s], gobj, nb, h, what=f"astar[{gname},{hname}]", budget=B)
             if not is_crash(res):
                 J.target_query(f"astar[{gname},{hname}]", res, s, gs, dist, key, labelled=True)
 
@@ -618,11 +621,11 @@ def _run_graph(case, obs):
             return float(v // 2) if all_int else float(v) / 2
 
         key = ("w", s, (j,))
-        res = call(obs, dj, labels[s], labels[j], nb, what=f"dijkstra[to {j}]", budget=B)
+        res = call(obs, dj, qlabels[s], qlabels[j], nb, what=f"dijkstra[to {j}]", budget=B)
         if not is_crash(res):
             J.target_query(f"dijkstra[to {j}]", res, s, [j], D[s][j], key, labelled=True)
         for hname, h in (("hexact", hj_exact), ("hhalf", hj_half)):
-            res = call(obs, astar, labels[s], labels[j], nb, h, what=f"astar[to {j},{hname}]", budget=B)
+            res = call(obs, astar, qlabels[s], qlabels[j], nb, h, what=f"astar[to {j},{hname}]", budget=B)
             if not is_crash(res):
                 J.target_query(f"astar[to {j},{hname}]", res, s, [j], D[s][j], key, labelled=True)
 
@@ -631,7 +634,7 @@ def _run_graph(case, obs):
     if mc is not None:
         within = d_goal is not None and d_goal <= _G.exact(mc)
         for who, fn, extra in [("dijkstra", dj, ()), ("astar[hexact]", astar, (h_exact,)), ("astar[h0]", astar, (heur[0][1],))]:
-            res = call(obs, fn, labels[s], pred, nb, *extra, max_cost=mc, what=f"{who}[max_cost={mc}]", budget=B)
+            res = call(obs, fn, qlabels[s], pred, nb, *extra, max_cost=mc, what=f"{who}[max_cost={mc}]", budget=B)
             if is_crash(res):
                 continue
             obs.event("sp.max_cost")
@@ -643,7 +646,7 @@ def _run_graph(case, obs):
     if mi is not None:
         lim_ok = mi <= nreach
         for who, fn, extra in [("dijkstra", dj, ()), ("astar[hhalf]", astar, (h_half,))]:
-            res = call(obs, fn, labels[s], pred, nb, *extra, max_iter=mi, what=f"{who}[max_iter={mi}]", budget=B)
+            res = call(obs, fn, qlabels[s], pred, nb, *extra, max_iter=mi, what=f"{who}[max_iter={mi}]", budget=B)
             if not is_crash(res):
                 obs.event("sp.max_iter")
                 J.target_query(f"{who}[max_iter={mi}]", res, s, goals, d_goal, key_multi, labelled=True, limit_ok=lim_ok)
@@ -673,10 +676,10 @@ def _run_graph(case, obs):
         sh = fname == "bfs"
         for gname, gobj, gs, dist, key in [("pred", pred, goals, h_goal, ("u", s, tuple(goals))),
                                            ("value", labels[t], [t], H[t], ("u", s, (t,)))]:
-            res = call(obs, fn, labels[s], gobj, unb, what=f"{fname}[{gname}]", budget=B)
+            res = call(obs, fn, qlabels[s], gobj, unb, what=f"{fname}[{gname}]", budget=B)
             if not is_crash(res):
                 J.target_query(f"{fname}[{gname}]", res, s, gs, dist, key, labelled=True, shortest=sh, widx=uwidx)
-        res = call(obs, fn, labels[s], None, unb, what=f"{fname}[None]", budget=B)
+        res = call(obs, fn, qlabels[s], None, unb, what=f"{fname}[None]", budget=B)
         if not is_crash(res):
             obs.event("reach.set")
             want = {labels[i] for i in reach}
@@ -687,7 +690,7 @@ def _run_graph(case, obs):
             if got != want or status_name(res) not in _OK:
                 obs.violate("reach.set", f"{fname}(goal=None): {short(res.solution, 200)} status {status_name(res)}, reachable set is {want!r}")
         if mi is not None:
-            res = call(obs, fn, labels[s], pred, unb, max_iter=mi, what=f"{fname}[max_iter={mi}]", budget=B)
+            res = call(obs, fn, qlabels[s], pred, unb, max_iter=mi, what=f"{fname}[max_iter={mi}]", budget=B)
             if not is_crash(res):
                 obs.event("sp.max_iter")
                 J.target_query(f"{fname}[max_iter={mi}]", res, s, goals, h_goal, ("u", s, tuple(goals)), labelled=True,
@@ -707,7 +710,7 @@ def _run_graph(case, obs):
                     obs.violate("reach.set", f"{fname}_edges(no target): {short(res.solution, 200)}, reachable set is {sorted(reach)}")
     # dijkstra on unit weights shares the bfs query
     unit_nb = _nb_factory(case, labels, uarcs, True, 2)
-    res = call(obs, dj, labels[s], pred, unit_nb, what="dijkstra[unit]", budget=B)
+    res = call(obs, dj, qlabels[s], pred, unit_nb, what="dijkstra[unit]", budget=B)
     if not is_crash(res):
         J.target_query("dijkstra[unit]", res, s, goals, h_goal, ("u", s, tuple(goals)), labelled=True, widx=uwidx)
 
